@@ -68,7 +68,7 @@ def points(ctx):
     base.add(0)
     xs = sorted(base)
     if ctx.scale > 1:  # thorough / extended search: add random points around every boundary
-        for _ in range(400 * ctx.scale):
+        for _ in range(400 * min(ctx.scale, 20)):
             k = ctx.rng.randrange(0, 65)
             base.add(ctx.rng.choice((1, -1)) * 2**k + ctx.rng.randrange(-3, 4))
         xs = sorted(base)
